@@ -26,7 +26,7 @@ fn strict_events(out: &mut Out, tree: &Sx, fork: &[String], vis: &str, consts: &
         let a = res(tree, &f, 11_000_000_000, vis, consts);
         let mut e = json!({"k": "strict", "flags": fork, "strict": s, "vis": vis, "a": a, "b": lax});
         if with_tree {
-            e["tree"] = tree.to_json();
+            e["tree"] = tree.to_jsonf();
         }
         out.emit(&e);
     }
@@ -92,7 +92,7 @@ pub fn record(args: &Args) {
                 let tree2 = Sx::from_json(&c["tree2"]);
                 let a = res(&tree, &flags, 11_000_000_000, &vis, &cc);
                 let b = res(&tree2, &flags, 11_000_000_000, &vis, &cc);
-                out.emit(&json!({"k": "perm", "tree": tree.to_json(), "tree2": tree2.to_json(), "flags": flags, "vis": vis, "a": a, "b": b}));
+                out.emit(&json!({"k": "perm", "tree": tree.to_jsonf(), "tree2": tree2.to_jsonf(), "flags": flags, "vis": vis, "a": a, "b": b}));
             }
         }
     }
@@ -132,7 +132,7 @@ pub fn record(args: &Args) {
         for _ in 0..2 {
             if let Some(t2) = permute(&tree, &mut r) {
                 let b = res(&t2, &flags, max, vis, &consts);
-                out.emit(&json!({"k": "perm", "tree": tree.to_json(), "tree2": t2.to_json(), "flags": flags, "vis": vis, "a": a, "b": b}));
+                out.emit(&json!({"k": "perm", "tree": tree.to_jsonf(), "tree2": t2.to_jsonf(), "flags": flags, "vis": vis, "a": a, "b": b}));
             }
         }
     }
